@@ -63,73 +63,87 @@ func hardNode(r *ev.Run, l layout, depth int) ev.Part {
 	outcomes := map[string]bool{}
 	exhaustive := true
 	nAlpha := len(hardDeltas) + 1
-	for _, node := range []int64{0, 1, nodeMax} {
-		for _, step0 := range []int64{0, 1, 4094, 4095} {
-			const T0 = 1000000
-			min := compose(l, T0, node, step0)
-			hist := make([]int, depth)
-			var rec func(d int)
-			run := func(n int) {
-				nd, err := snowflake.NewNode(node, min)
-				if err != nil {
-					r.Violate(ev.Violation{Signature: "hardnode: NewNode refuses a valid node", Scenario: "hardnode/" + l.String(), What: err.Error()})
-					return
-				}
-				last := min
-				var names []string
-				for i := 0; i < n; i++ {
-					a := hist[i]
-					if a == len(hardDeltas) {
-						names = append(names, "restart(lastID)")
-						nd, _ = snowflake.NewNode(node, last)
-						continue
-					}
-					curT, _, _ := snowflake.IDFields(last)
-					now := curT + hardDeltas[a]
-					clock = l.epoch + now
-					names = append(names, fmt.Sprintf("Generate@clock=last%+d", hardDeltas[a]))
-					id := nd.Generate()
-					steps++
-					tf, nf, sf := snowflake.IDFields(id)
-					bad, sig := "", ""
-					switch {
-					case id <= last:
-						bad, sig = fmt.Sprintf("id %d (t=%d step=%d) is not greater than the previous id %d", id, tf, sf, last), "HardNode id not strictly increasing"
-					case nf != node:
-						bad, sig = fmt.Sprintf("id %d carries node %d, configured %d", id, nf, node), "HardNode node field wrong"
-					case tf < now:
-						bad, sig = fmt.Sprintf("id %d carries timestamp %d earlier than the clock reading %d", id, tf, now), "HardNode timestamp earlier than the clock"
-					}
-					if i == n-1 {
-						outcomes[fmt.Sprintf("d%+d/carry=%v/reset=%v", hardDeltas[a], tf > curT && now <= curT, sf == 0)] = true
-					}
-					if bad != "" {
-						r.Violate(ev.Violation{Signature: "hardnode: " + sig, Scenario: "hardnode/" + l.String(), What: fmt.Sprintf("node=%d start step=%d history %v: %s", node, step0, names, bad),
-							Replay: map[string]interface{}{"layout": l.String(), "node": node, "start_step": step0, "history": names}})
+	// start timestamps: small, and - where the timestamp field is wider than 41 bits - beyond 2^41 and
+	// 2^42 ms (still before 2262, where time.UnixNano ends)
+	t0s := []int64{1000000}
+	width := 63 - uint(l.nodeBits) - 12
+	if width >= 42 {
+		t0s = append(t0s, 1<<41+12345)
+	}
+	if width >= 43 {
+		t0s = append(t0s, 1<<42+999)
+	}
+	for _, T0 := range t0s {
+		for _, node := range []int64{0, 1, nodeMax} {
+			if T0 != 1000000 && node == 1 {
+				continue
+			}
+			for _, step0 := range []int64{0, 1, 4094, 4095} {
+				min := compose(l, T0, node, step0)
+				hist := make([]int, depth)
+				var rec func(d int)
+				run := func(n int) {
+					nd, err := snowflake.NewNode(node, min)
+					if err != nil {
+						r.Violate(ev.Violation{Signature: "hardnode: NewNode refuses a valid node", Scenario: "hardnode/" + l.String(), What: err.Error()})
 						return
 					}
-					last = id
+					last := min
+					var names []string
+					for i := 0; i < n; i++ {
+						a := hist[i]
+						if a == len(hardDeltas) {
+							names = append(names, "restart(lastID)")
+							nd, _ = snowflake.NewNode(node, last)
+							continue
+						}
+						curT, _, _ := snowflake.IDFields(last)
+						now := curT + hardDeltas[a]
+						clock = l.epoch + now
+						names = append(names, fmt.Sprintf("Generate@clock=last%+d", hardDeltas[a]))
+						id := nd.Generate()
+						steps++
+						tf, nf, sf := snowflake.IDFields(id)
+						bad, sig := "", ""
+						switch {
+						case id <= last:
+							bad, sig = fmt.Sprintf("id %d (t=%d step=%d) is not greater than the previous id %d", id, tf, sf, last), "HardNode id not strictly increasing"
+						case nf != node:
+							bad, sig = fmt.Sprintf("id %d carries node %d, configured %d", id, nf, node), "HardNode node field wrong"
+						case tf < now:
+							bad, sig = fmt.Sprintf("id %d carries timestamp %d earlier than the clock reading %d", id, tf, now), "HardNode timestamp earlier than the clock"
+						}
+						if i == n-1 {
+							outcomes[fmt.Sprintf("d%+d/carry=%v/reset=%v", hardDeltas[a], tf > curT && now <= curT, sf == 0)] = true
+						}
+						if bad != "" {
+							r.Violate(ev.Violation{Signature: "hardnode: " + sig, Scenario: "hardnode/" + l.String(), What: fmt.Sprintf("node=%d start timestamp=%d step=%d history %v: %s", node, T0, step0, names, bad),
+								Replay: map[string]interface{}{"layout": l.String(), "node": node, "start_step": step0, "history": names}})
+							return
+						}
+						last = id
+					}
 				}
+				rec = func(d int) {
+					if d > 0 {
+						execs++
+						run(d)
+					}
+					if d == depth {
+						return
+					}
+					if execs&1023 == 0 && r.Expired() {
+						exhaustive = false
+						return
+					}
+					for a := 0; a < nAlpha; a++ {
+						// only the last op of a prefix is new: run(d) replays the prefix (cheap), which keeps it stateless
+						hist[d] = a
+						rec(d + 1)
+					}
+				}
+				rec(0)
 			}
-			rec = func(d int) {
-				if d > 0 {
-					execs++
-					run(d)
-				}
-				if d == depth {
-					return
-				}
-				if execs&1023 == 0 && r.Expired() {
-					exhaustive = false
-					return
-				}
-				for a := 0; a < nAlpha; a++ {
-					// only the last op of a prefix is new: run(d) replays the prefix (cheap), which keeps it stateless
-					hist[d] = a
-					rec(d + 1)
-				}
-			}
-			rec(0)
 		}
 	}
 	return ev.Part{Name: "hardnode/" + l.String(), Evaluations: execs, States: execs, Transitions: steps, Outcomes: int64(len(outcomes)), Exhaustive: exhaustive, Blocked: true,
